@@ -504,8 +504,12 @@ func (p *path) callBuiltin(caller *frame, fn *ssa.Builtin, args []value, site *s
 		n := 0
 		switch src := args[1].(type) {
 		case []value:
-			for n < len(dst) && n < len(src) {
-				dst[n] = copyVal(src[n])
+			tmp := make([]value, 0, len(src))
+			for _, x := range src {
+				tmp = append(tmp, copyVal(x)) // memmove semantics: source and destination may overlap
+			}
+			for n < len(dst) && n < len(tmp) {
+				dst[n] = tmp[n]
 				n++
 			}
 		case Str:
